@@ -692,8 +692,16 @@ func TestVerifC32(t *testing.T) {
 			if !vk.Thorough() && d.d >= 100000 && !fewer[nt.name] {
 				continue
 			}
+			depth := d.d
+			if nt.name == "query-join" && depth > 10000 {
+				// not nesting but a chain: the header of an n-way join lists n field lists and is copied for every
+				// join, so parsing is quadratic by design (7 s CPU at 10000 on an idle machine, memory bound and
+				// therefore several times that next to 15 other shards; hours at 10^6). The CPU budget below is a
+				// bound on progress, not on polynomial work, so the chain stops at 10000.
+				continue
+			}
 			if k%vk.NShards() == vk.Shard() {
-				ins = append(ins, nestInput(nt, d.d))
+				ins = append(ins, nestInput(nt, depth))
 			}
 			k++
 		}
